@@ -173,6 +173,31 @@ def and_(*xs):
         return TRUE
     if len(out) == 1:
         return out[0]
+    # variant exclusivity: is_A(x) & is_B(x) = false ;  is_A(x) & (is_B(x) | y) = is_A(x) & y
+    pos = {}
+    for x in out:
+        if x.op == "isvar":
+            k = (x.a[0].id, x.a[1])
+            if k in pos and pos[k] != x.a[2]:
+                return FALSE
+            pos[k] = x.a[2]
+    if pos:
+        res = []
+        chg = False
+        for x in out:
+            if x.op == "or":
+                kept = []
+                for p in x.a:
+                    if p.op == "isvar" and pos.get((p.a[0].id, p.a[1]), p.a[2]) != p.a[2]:
+                        chg = True
+                        continue
+                    kept.append(p)
+                if len(kept) != len(x.a):
+                    res.append(or_(*kept))
+                    continue
+            res.append(x)
+        if chg:
+            return and_(*res)
     # absorption: x & (x | y) = x ;  x & (!x | y) = x & y
     changed = False
     res = []
@@ -190,6 +215,38 @@ def and_(*xs):
         res.append(x)
     if changed:
         return and_(*res)
+    # boolean choices on the same condition:  ite(c, a, b) & ite(c, a', b')  =  ite(c, a & a', b & b')
+    # and a literal that decides the condition of a sibling choice selects its branch
+    conds = {}
+    for x in out:
+        if x.op == "ite":
+            conds.setdefault(x.a[0].id, []).append(x)
+    merged = False
+    if conds:
+        res = []
+        done = set()
+        for x in out:
+            if x.op == "ite":
+                c = x.a[0]
+                if c.id in seen:                      # c is itself a conjunct
+                    res.append(x.a[1])
+                    merged = True
+                    continue
+                if not_(c).id in seen:
+                    res.append(x.a[2])
+                    merged = True
+                    continue
+                grp = conds[c.id]
+                if len(grp) > 1:
+                    if c.id in done:
+                        continue
+                    done.add(c.id)
+                    res.append(ite(c, and_(*[g.a[1] for g in grp]), and_(*[g.a[2] for g in grp])))
+                    merged = True
+                    continue
+            res.append(x)
+        if merged:
+            return and_(*res)
     return mk("and", *out)
 
 
@@ -241,6 +298,12 @@ def or_(*xs):
     return mk("or", *out)
 
 
+def _boolish(t, depth=0):
+    if t is TRUE or t is FALSE or t.op in BOOL_OPS:
+        return True
+    return t.op == "ite" and depth < 6 and _boolish(t.a[1], depth + 1) and _boolish(t.a[2], depth + 1)
+
+
 def ite(c, a, b):
     if c is TRUE:
         return a
@@ -264,11 +327,11 @@ def ite(c, a, b):
         return not_(c)
     if a is TRUE:
         return or_(c, b)
-    if b is FALSE and (a.op in BOOL_OPS):
+    if b is FALSE and _boolish(a):
         return and_(c, a)
     if a is FALSE:
         return and_(not_(c), b)
-    if b is TRUE and (a.op in BOOL_OPS):
+    if b is TRUE and _boolish(a):
         return or_(not_(c), a)
     # ite(c, ite(c, x, y), z) = ite(c, x, z)
     if a.op == "ite" and a.a[0] is c:
